@@ -16,6 +16,14 @@ TRUSTED_BASE = [
 
 P = {}
 
+# properties whose theorems are stated on the chain model (world-level theorems): every co-simulated event is
+# also executed by the real contract inside cw-multi-test's WasmKeeper / BankKeeper and compared with the Lean
+# chain model (vlib/mtmirror.py, harness/src/mt.rs)
+MT_PROPS = {"C01", "C02", "C03", "C05", "C06", "C07", "C08", "C10", "C11"}
+MT_NOTE = ("reference chain: the Lean chain model's transaction / sub-message / reply / rollback and bank clauses are compared on every "
+           "co-simulated event with cw-multi-test 0.17 (WasmKeeper, BankKeeper) running the real contract; the routing of Stargate "
+           "messages, the packet list and ibc-hooks delivery in that reference chain are this project's own code (harness/src/mt.rs)")
+
 
 def prop(pid, **kw):
     kw.setdefault("variants", ALL_VARIANTS)
@@ -26,6 +34,9 @@ def prop(pid, **kw):
     kw.setdefault("monitors", [])
     kw.setdefault("assumptions", [])
     kw.setdefault("kind", "staking")
+    if pid in MT_PROPS:
+        kw["profile"] = dict(kw["profile"], mt=True)
+        kw["trusted_extra"] = kw.get("trusted_extra", []) + [MT_NOTE]
     P[pid] = kw
 
 
